@@ -783,7 +783,15 @@ async fn run(_tier: Tier) {
         let mut mb = MessageBuilder::new_vec();
         mb.header_mut().set_rd(true);
         let mut qb = mb.question();
-        qb.push((Name::<Vec<u8>>::from_chars(qname.chars()).unwrap(), qtype)).unwrap();
+        // The question as the caller spelled it: now and then with letters
+        // in upper case (names compare, hash and verify in lower case).
+        let spelled: String = if sim::chance("query.mixed_case", 1, 4) {
+            sim::stat("probe.question_name_in_mixed_case");
+            qname.chars().enumerate().map(|(i, c)| if (i + qi as usize) % 3 == 0 { c.to_ascii_uppercase() } else { c }).collect()
+        } else {
+            qname.to_string()
+        };
+        qb.push((Name::<Vec<u8>>::from_chars(spelled.chars()).unwrap(), qtype)).unwrap();
         let req_msg = qb.into_message();
         let bytes = to_message(&req_msg, &r);
         let mut msg = Message::from_octets(bytes).expect("message");
